@@ -307,6 +307,18 @@ class C20Machine(Machine):
                     handles = [open(path, 'rb'), open(path, 'rb')]
                     P = F.io.FCSData(handles[0])
                     R = F.io.FCSData(handles[1])
+                    if any(h.closed for h in handles):
+                        V.append(violation('C20/file-eq', 'fileobj/handle-closed-by-reader',
+                                           'loading from an open file object closed the caller\'s handle'))
+                    else:
+                        # two loads of the same file through the same handle compare equal
+                        try:
+                            f1 = F.io.FCSFile(handles[0])
+                            f2 = F.io.FCSFile(handles[0])
+                            if not (f1 == f2) or (f1 != f2) or hash(f1) != hash(f2):
+                                V.append(violation('C20/file-eq', 'fileobj/same-handle', 'two loads through one handle differ'))
+                        except Exception as e:
+                            V.append(violation('C20/file-eq', 'fileobj/second-load-raises/' + type(e).__name__, str(e)[:200]))
                     if case.get('close_handles'):
                         for h in handles:
                             h.close()
@@ -341,7 +353,29 @@ class C20Machine(Machine):
                     if isinstance(res, tuple):
                         res, fresh_digest = res
                     bump(out['faults'], 'restart:' + op['kind'])
-                    # independence: mutate a throw-away second clone, source must not change
+                    # independence, first direction: the source's metadata is edited BEFORE anything of the new clone is
+                    # read (a lazily copied field would still point at the source)
+                    try:
+                        src.text['__verif_early__'] = 'edited'
+                        src.analysis['__verif_early__'] = 'edited'
+                        rs0 = src.range()
+                        saved0 = None
+                        if isinstance(rs0, list) and rs0 and isinstance(rs0[0], list):
+                            saved0 = rs0[0][0]
+                            rs0[0][0] = -31337.0
+                        early = fpm.sample_state(res, exact=False)
+                        del src.text['__verif_early__']
+                        del src.analysis['__verif_early__']
+                        if saved0 is not None:
+                            rs0[0][0] = saved0
+                        df0 = [f_ for f_ in fpm.diff_fields(before, early) if f_ != 'values' or op['kind'] != 'view']
+                        if df0:
+                            V.append(violation('C20/clone-not-independent', '%s/source-edited-first/%s' % (op['kind'], '+'.join(df0)),
+                                               'editing the source right after making a %s clone (before the clone was read) '
+                                               'shows through in the clone fields %s' % (op['kind'], df0)))
+                    except Exception as e:
+                        V.append(violation('C20/restart-raises', '%s/independence/%s' % (op['kind'], type(e).__name__), str(e)[:200]))
+                    # second direction: mutate a throw-away second clone, source must not change
                     try:
                         if op['kind'].startswith('pickle'):
                             clone = pickle.loads(pickle.dumps(src, protocol=int(op['kind'][-1])))
